@@ -709,6 +709,26 @@ func c4Mismatch(rng *rand.Rand, s *world.Spec, kind string) {
 		}
 	case "pceid":
 		d.PceID = flipHexBit(rng, d.PceID)
+	case "pceid-malformed-vs-0000": // the certificate carries PCE-ID 0000 (as every production platform does); the document's is not a PCE-ID at all
+		sgx := *s.Cert("leaf").Sgx
+		sgx.PceID = []byte{0, 0}
+		s.Cert("leaf").Sgx = &sgx
+		d.PceID = []string{"", "000", "00", "000001", "zzzz", "0x01", "0", "00000"}[rng.IntN(8)]
+	case "pceid-case": // PCE-ID is compared as spelled (the certificate side is lower-case hex): other letter case is another string
+		sgx := *s.Cert("leaf").Sgx
+		sgx.PceID = []byte{0xab, 0xcd}
+		s.Cert("leaf").Sgx = &sgx
+		d.PceID = "ABCD"
+	case "seamattr-high": // a masked bit in the upper half of the 8 bytes differs
+		mask := hx.RandBytes(rng, 8)
+		k := 4 + rng.IntN(4)
+		mask[k] |= 0x80
+		attr := make([]byte, 8)
+		for i := range attr {
+			attr[i] = mask[i] & seam[i]
+		}
+		attr[k] ^= 0x80
+		d.Mask, d.Attributes = hex.EncodeToString(mask), hex.EncodeToString(attr)
 	case "mrsignerseam":
 		d.Mrsigner = flipHexBit(rng, d.Mrsigner)
 	case "seamattr", "seamattr-unmasked":
@@ -752,7 +772,7 @@ func c4Mismatch(rng *rand.Rand, s *world.Spec, kind string) {
 	}
 }
 
-var c4Mismatches = []string{"fmspc", "fmspc-case", "pceid", "mrsignerseam", "seamattr", "seamattr-unmasked", "seamattr-valuebit-outside", "masklen7", "masklen9", "masklen0", "attrlen7", "attr-nothex"}
+var c4Mismatches = []string{"fmspc", "fmspc-case", "pceid", "pceid-malformed-vs-0000", "pceid-case", "seamattr-high", "mrsignerseam", "seamattr", "seamattr-unmasked", "seamattr-valuebit-outside", "masklen7", "masklen9", "masklen0", "attrlen7", "attr-nothex"}
 
 func c4Tags(a *c4Abs) []string {
 	t := []string{"fam:" + a.fam, fmt.Sprintf("tee1:%d", a.tee1), fmt.Sprintf("nlevels:%d", len(a.levels)), "module:" + a.modKind + fmt.Sprint(len(a.mod))}
